@@ -20,13 +20,14 @@ Correspondence:
 from __future__ import annotations
 
 import asyncio
+import json
 import random
 import re
 import sys
 
 from .. import core
 from ..core import Family
-from ..sim import tls_live, tls_paths, tls_peer
+from ..sim import tls_live, tls_paths, tls_peer, tls_startup
 from ..sim.tls_peer import VERS
 
 ID = "C20"
@@ -70,6 +71,17 @@ def harness_cert() -> tuple[bytes, bytes]:
     if _HARNESS_CERT is None:
         _HARNESS_CERT = tls_peer.make_cert("localhost")
     return _HARNESS_CERT
+
+
+_HARNESS_CERT_B: tuple[bytes, bytes] | None = None
+
+
+def harness_cert_b() -> tuple[bytes, bytes]:
+    """a second certificate for the same name (another key): a renewed - or somebody else's - certificate"""
+    global _HARNESS_CERT_B
+    if _HARNESS_CERT_B is None:
+        _HARNESS_CERT_B = tls_peer.make_cert("localhost")
+    return _HARNESS_CERT_B
 
 
 def get_ctx(pid: int, sec0: bool, fresh: bool = False):
@@ -674,7 +686,414 @@ class ClientHistories(Family):
         return f"{case['mode']}: " + " > ".join(cls(s) for s in case["steps"][:2]) + (" > ..." if len(case["steps"]) > 2 else "")
 
 
-FAMILIES = [Versions(), PlaintextModel(), Live(), ClientHistories()]
+# ------------------------------------------------------------------------------------------------
+# family 5: the configuration space of the start-up paths, probed at the listener start_server builds
+# ------------------------------------------------------------------------------------------------
+_FP = "ab" * 32
+AUTH_SHAPES: dict[str, list | None] = {
+    "no-cert-auth": None,
+    "empty-rule-list": [],
+    "exempting-rule-only": [{"prefix": "/public/", "require_cert": False, "fps": None}],
+    "exempting-root-rule": [{"prefix": "/", "require_cert": False, "fps": None}],
+    "two-exempting-rules": [{"prefix": "/public/", "require_cert": False, "fps": None}, {"prefix": "/docs/", "require_cert": False, "fps": None}],
+    "requiring-rule": [{"prefix": "/private/", "require_cert": True, "fps": None}],
+    "exempting-then-requiring": [{"prefix": "/public/", "require_cert": False, "fps": None}, {"prefix": "/", "require_cert": True, "fps": None}],
+    "fingerprints-only": [{"prefix": "/admin/", "require_cert": False, "fps": [_FP]}],
+    "empty-fingerprint-list": [{"prefix": "/admin/", "require_cert": False, "fps": []}],
+    "requiring-with-fingerprints": [{"prefix": "/admin/", "require_cert": True, "fps": [_FP]}],
+}
+OLD_TLS = ("SSLv3", "TLSv1", "TLSv1.1")
+
+
+def _auth_class(auth) -> str:
+    """class of a certificate_auth configuration, from its content (not from the table above)"""
+    if auth is None:
+        return "no-cert-auth"
+    if not auth:
+        return "cert-auth/no-rules"
+    if any(r["require_cert"] for r in auth):
+        return "cert-auth/some-rule-requires"
+    if any(r.get("fps") is not None for r in auth):
+        return "cert-auth/fingerprints-only"
+    return "cert-auth/exempting-rules-only"
+
+
+class Startup(Family):
+    """Every supported configuration: {start_server(...), `nauyaca serve --config`} x certificate
+    {auto-generated, supplied RSA-2048 / EC, supplied below the security level: RSA-1024, SHA-1 signed}
+    x require_client_cert x certificate_auth configurations (none, empty, exempting rules only,
+    requiring rules, fingerprint lists).  The real server is started on a loopback socket and the
+    listener it built is probed: plaintext, permissive old-version TLS clients (with and without a client
+    certificate) and a modern client as a control.  A server that refuses to start satisfies the
+    property; one that starts must not serve below TLS 1.2 and must not serve without TLS."""
+
+    name = "startup"
+    quick_n = 120
+    thorough_n = 1920
+
+    def _probes(self, rng: random.Random, many: bool) -> list[dict]:
+        ps = [{"kind": "plain", "chunks": [PLAIN_LINES[0].hex()]}]
+        extra = rng.choice(PLAIN_LINES[1:6] + PLAIN_LINES[9:11] + [PLAIN_LINES[12]]) if rng.random() < 0.75 else \
+            bytes(rng.randrange(256) for _ in range(rng.choice([7, 60, 900])))
+        k = rng.randint(0, 2)
+        cuts = sorted(rng.sample(range(1, len(extra)), min(k, len(extra) - 1))) if len(extra) > 1 else []
+        ps.append({"kind": "plain", "chunks": [extra[a:b].hex() for a, b in zip([0] + cuts, cuts + [len(extra)])]})
+        olds = [(1, 1), (2, 2), (1, 2), (0, 2)]
+        rng.shuffle(olds)
+        for lo, hi in (olds if many else olds[:2]):
+            ps.append({"kind": "tls", "lo": lo, "hi": hi, "cc": rng.random() < 0.5})
+        if (1, 1) not in [(p.get("lo"), p.get("hi")) for p in ps]:
+            ps.append({"kind": "tls", "lo": 1, "hi": 1, "cc": False})
+        ps.append({"kind": "tls", "lo": rng.choice([1, 3]), "hi": 4, "cc": rng.random() < 0.5})
+        return ps
+
+    def _product(self, full: bool) -> list[dict]:
+        out = []
+        i = 0
+        for cert in tls_startup.CERT_KINDS:
+            for rcc in (False, True):
+                for shape, auth in AUTH_SHAPES.items():
+                    for entry in (("api", "cli") if full else (("api", "cli")[i % 2],)):
+                        out.append({"entry": entry, "cert": cert, "rcc": rcc, "shape": shape, "auth": auth})
+                    i += 1
+        random.Random(20).shuffle(out)
+        # the boundary of the property first: configurations in which nothing asks for a client certificate
+        # although certificate_auth is configured, and certificates OpenSSL's default level would refuse
+        out.sort(key=lambda c: 0 if (_auth_class(c["auth"]) in ("cert-auth/no-rules", "cert-auth/exempting-rules-only") and not c["rcc"]) or c["cert"] in tls_startup.WEAK_KINDS else 1)
+        return out
+
+    def gen(self, rng: random.Random, n: int):
+        full = n >= 100
+        count = 0
+        for cfg in self.share(self._product(full)):
+            yield dict(cfg, probes=self._probes(rng, full))
+            count += 1
+        while count < n:
+            rules = []
+            for _ in range(rng.choice([0, 1, 1, 2, 3])):
+                fps = rng.choice([None, None, None, [], [_FP], [_FP, "cd" * 32]])
+                rules.append({"prefix": rng.choice(["/", "/public/", "/private/", "/a", "/admin/", "/docs/x/"]),
+                              "require_cert": rng.random() < 0.3, "fps": fps})
+            auth = None if rng.random() < 0.1 else rules
+            yield {"entry": rng.choice(["api", "cli"]), "cert": rng.choice(tls_startup.CERT_KINDS), "rcc": rng.random() < 0.3,
+                   "shape": "random", "auth": auth, "probes": self._probes(rng, True)}
+            count += 1
+
+    def impl(self, case):
+        import shutil
+        import tempfile
+        from pathlib import Path
+
+        from nauyaca.server import handler as H
+
+        root = tempfile.mkdtemp(prefix="nv-")
+        (Path(root) / "index.gmi").write_text("# REACHED-HANDLER\n")
+        (Path(root) / "public").mkdir()
+        (Path(root) / "public" / "index.gmi").write_text("# REACHED-HANDLER public\n")
+        calls = {"n": 0}
+        orig = H.StaticFileHandler.handle
+
+        def counting(self_, request):
+            calls["n"] += 1
+            return orig(self_, request)
+
+        H.StaticFileHandler.handle = counting
+        obs = {"started": False, "error": None, "listener": "-", "probes": []}
+        try:
+            with tls_startup.Started(case["entry"], case["cert"], case["rcc"], case["auth"], root) as srv:
+                obs["started"], obs["error"], obs["listener"] = srv.started, srv.error, srv.backend
+                if not srv.started:
+                    return obs
+                cc_files = None
+                for p in case["probes"]:
+                    before = calls["n"]
+                    if p["kind"] == "plain":
+                        r = tls_live.plaintext_probe(srv.port, [bytes.fromhex(c) for c in p["chunks"]], wait=0.3)
+                        got = r["got"]
+                        o = {"end": r["end"], "out_len": len(got), "out_tls": tls_peer.looks_like_tls(got), "out_head": got[:24].hex(),
+                             "gemini_like": bool(re.match(rb"[1-6][0-9][ \r]", got) or b"REACHED-HANDLER" in got)}
+                    else:
+                        certkey = None
+                        if p["cc"]:
+                            if cc_files is None:
+                                cc, ck = tls_peer.make_cert("client")
+                                (Path(root) / ".cc.pem").write_bytes(cc)
+                                (Path(root) / ".ck.pem").write_bytes(ck)
+                                cc_files = (str(Path(root) / ".cc.pem"), str(Path(root) / ".ck.pem"))
+                            certkey = cc_files
+                        buf = []
+                        try:
+                            r = tls_live.tls_fetch(srv.port, b"gemini://localhost/\r\n", ctx=tls_peer.peer_client_ctx(p["lo"], p["hi"], True, certkey),
+                                                   timeout=5, sink=buf.append)
+                        except (OSError, ValueError) as e:   # e.g. the connection is reset while the request is written
+                            r = {"eof": "error:" + type(e).__name__, "version": None}
+                        o = {"end": r["eof"].split(":")[0], "version": r["version"], "resp": b"".join(buf)[:2].decode("latin1")}
+                    o["h"] = calls["n"] - before
+                    obs["probes"].append(o)
+            return obs
+        finally:
+            H.StaticFileHandler.handle = orig
+            shutil.rmtree(root, ignore_errors=True)
+
+    @staticmethod
+    def _describe(case) -> str:
+        how = "start_server(config, certificate_auth_config=...)" if case["entry"] == "api" else "`nauyaca serve --config <toml>`"
+        cert = "no certificate configured (auto-generated)" if case["cert"] == "auto" else f"supplied {case['cert']} certificate"
+        auth = "no certificate_auth" if case["auth"] is None else "certificate_auth rules " + json.dumps(case["auth"])
+        return f"{how}, {cert}, require_client_cert={case['rcc']}, {auth}"
+
+    def oracle(self, case, obs):
+        if not obs["started"]:
+            return None   # refusing to serve is no service
+        tag = f"{case['entry']}-{'auto' if case['cert'] == 'auto' else 'weak' if case['cert'] in tls_startup.WEAK_KINDS else 'supplied'}"
+        for p, o in zip(case["probes"], obs["probes"]):
+            if p["kind"] == "plain":
+                sent = b"".join(bytes.fromhex(c) for c in p["chunks"])[:40]
+                if o["h"]:
+                    return (f"startup-plaintext-reached-handler-{tag}",
+                            f"the server started by [{self._describe(case)}] ran a handler {o['h']} time(s) for {sent!r} sent to its port without TLS (answer: {bytes.fromhex(o['out_head'])!r})")
+                if o["gemini_like"]:
+                    return (f"startup-plaintext-got-response-{tag}",
+                            f"the server started by [{self._describe(case)}] answered {sent!r} sent without TLS with Gemini response bytes {bytes.fromhex(o['out_head'])!r}")
+                if o["out_len"] and not o["out_tls"]:
+                    return (f"startup-plaintext-got-nontls-bytes-{tag}",
+                            f"the server started by [{self._describe(case)}] answered {sent!r} sent without TLS with bytes that are not TLS records: {o['out_head']}")
+            else:
+                if o["version"] in OLD_TLS:
+                    return (f"startup-old-tls-{tag}",
+                            f"the server started by [{self._describe(case)}] completed a {o['version']} handshake with a permissive client offering "
+                            f"{VERS[p['lo']]}..{VERS[p['hi']]}{' and presenting a client certificate' if p['cc'] else ''} (response read afterwards: {o['resp']!r})")
+                if o["resp"] and o["version"] not in ("TLSv1.2", "TLSv1.3"):
+                    return (f"startup-response-without-modern-tls-{tag}", f"a response {o['resp']!r} was read on a connection whose TLS version is {o['version']}")
+        return None
+
+    def same(self, expected, obs):
+        return True
+
+    def key(self, case, obs):
+        cert = case["cert"] if case["cert"] in ("auto",) + tuple(tls_startup.WEAK_KINDS) else "supplied"
+        head = f"{case['entry']} cert={cert} rcc={'y' if case['rcc'] else 'n'} {_auth_class(case['auth'])}"
+        if not obs["started"]:
+            return f"{head} -> refuses to start ({obs['error']})"
+        plain = sorted({("alert" if o["out_len"] else "nothing") for p, o in zip(case["probes"], obs["probes"]) if p["kind"] == "plain"})
+        old = sorted({str(o["version"]) for p, o in zip(case["probes"], obs["probes"]) if p["kind"] == "tls" and p["hi"] <= 2})
+        modern = sorted({str(o["version"]) for p, o in zip(case["probes"], obs["probes"]) if p["kind"] == "tls" and p["hi"] > 2})
+        return f"{head} -> {obs['listener']}; plaintext {'/'.join(plain)}; old clients {'/'.join(old)}; modern {'/'.join(modern)}"
+
+
+# ------------------------------------------------------------------------------------------------
+# family 6: every command of the command-line interface against servers that offer less than TLS 1.2
+# ------------------------------------------------------------------------------------------------
+# how the harness drives the commands it knows to open a connection: variant -> (argv template, row of
+# Gen.contextPaths whose version range the command is expected to have, or None).  Every OTHER leaf command
+# found in the source (except `serve`, the server itself: family `startup`) is run too, with an argument
+# vector synthesised from its declared parameters, in a process of its own.
+CLI_DRIVERS: dict[str, dict[str, tuple[list[str], int | None]]] = {
+    "get": {
+        "tofu": (["get", "{url}", "-t", "5"], 7),
+        "tofu-no-redirects": (["get", "{url}", "-t", "5", "--no-redirects", "-v"], 7),
+        "ca": (["get", "{url}", "-t", "5", "--verify-ssl", "--no-trust"], 8),
+        "ca+tofu": (["get", "{url}", "-t", "5", "--verify-ssl"], None),
+        "plain": (["get", "{url}", "-t", "5", "--no-trust"], 9),
+        "tofu-client-cert": (["get", "{url}", "-t", "5", "--client-cert", "{cc}", "--client-key", "{ck}"], 10),
+    },
+    "tofu trust": {
+        "default": (["tofu", "trust", "localhost", "--port", "{port}"], 9),
+        "short-option": (["tofu", "trust", "localhost", "-p", "{port}"], 9),
+    },
+}
+SERVER_COMMANDS = {"serve"}
+
+
+class CliCommands(Family):
+    """Client side, from the user's end: each command of `nauyaca ...` found in the source is pointed at
+    ONE host:port whose TLS stack is scripted per step (permissive, security level 0, a version range, a
+    certificate A or B, optionally resetting the first connection), starting from a pin store that is
+    empty, pins certificate A or pins certificate B.  Observed at the peer: completed handshakes with
+    their version and the request bytes that followed; observed at the user's end: the pin store
+    (through TOFUDatabase().list_hosts() under a private HOME) before and after every step."""
+
+    name = "cli"
+    quick_n = 96
+    thorough_n = 960
+
+    def _commands(self):
+        try:
+            return tls_startup.cli_commands()
+        except Exception:  # noqa: BLE001  (the CLI cannot be imported: every case will say so)
+            return []
+
+    def _shapes(self):
+        out = []
+        cmds = self._commands()
+        names = {" ".join(c["path"]) for c in cmds}
+        for name, variants in CLI_DRIVERS.items():
+            for variant in variants:
+                for old in ((1, 1), (1, 2), (2, 2)):
+                    for prepin in (None, "A", "B"):
+                        out.append({"cmd": name, "variant": variant, "prepin": prepin, "present": name in names,
+                                    "steps": [{"lo": old[0], "hi": old[1], "reset_first": False, "cert": "A"}]})
+                out.append({"cmd": name, "variant": variant, "prepin": None, "present": name in names,
+                            "steps": [{"lo": 3, "hi": 4, "reset_first": False, "cert": "A"}, {"lo": 1, "hi": 2, "reset_first": False, "cert": "B"},
+                                      {"lo": 1, "hi": 2, "reset_first": True, "cert": "A"}, {"lo": 1, "hi": 4, "reset_first": False, "cert": "A"}]})
+        for c in cmds:
+            name = " ".join(c["path"])
+            if name in CLI_DRIVERS or name in SERVER_COMMANDS:
+                continue
+            out.append({"cmd": name, "variant": "synthesised", "prepin": "B", "present": True, "params": c["params"],
+                        "steps": [{"lo": 1, "hi": 2, "reset_first": False, "cert": "A"}]})
+        random.Random(20).shuffle(out)
+        out.sort(key=lambda s: 0 if s["variant"] == "synthesised" else 1)   # spread the slow (own process) ones evenly over the shards
+        return out
+
+    def gen(self, rng: random.Random, n: int):
+        count = 0
+        for s in self.share(self._shapes()):
+            yield s
+            count += 1
+        names = [(c, v) for c, vs in CLI_DRIVERS.items() for v in vs]
+        while count < n:
+            cmd, variant = rng.choice(names)
+            steps = []
+            for _ in range(rng.randint(1, 4)):
+                lo, hi = rng.choice(OLD_RANGES if rng.random() < 0.6 else MODERN_RANGES)
+                steps.append({"lo": lo, "hi": hi, "reset_first": rng.random() < 0.2, "cert": rng.choice(["A", "A", "B"])})
+            yield {"cmd": cmd, "variant": variant, "prepin": rng.choice([None, "A", "B"]), "present": True, "steps": steps}
+            count += 1
+
+    # -- running one case -----------------------------------------------------------------------------
+    def impl(self, case):
+        import os
+        import shutil
+        import tempfile
+        from pathlib import Path
+
+        from cryptography import x509
+
+        tmp = tempfile.mkdtemp(prefix="nv-")
+        peer = None
+        saved = {k: os.environ.get(k) for k in ("HOME", "SSL_CERT_FILE", "NO_COLOR")}
+        cwd = os.getcwd()
+        try:
+            certs = {}
+            for nm, pems in (("A", harness_cert()), ("B", harness_cert_b())):
+                cf, kf = os.path.join(tmp, f"{nm}-c.pem"), os.path.join(tmp, f"{nm}-k.pem")
+                Path(cf).write_bytes(pems[0])
+                Path(kf).write_bytes(pems[1])
+                certs[nm] = (cf, kf)
+            both = os.path.join(tmp, "trusted.pem")
+            Path(both).write_bytes(harness_cert()[0] + harness_cert_b()[0])
+            cc, ck = tls_peer.make_cert("client")
+            Path(os.path.join(tmp, "cc.pem")).write_bytes(cc)
+            Path(os.path.join(tmp, "ck.pem")).write_bytes(ck)
+            home = os.path.join(tmp, "home")
+            os.mkdir(home)
+            os.environ.update(HOME=home, SSL_CERT_FILE=both, NO_COLOR="1")
+            os.chdir(home)
+            peer = tls_startup.CertPeer(certs)
+            subst = {"{url}": f"gemini://localhost:{peer.port}/page", "{port}": str(peer.port), "{cc}": os.path.join(tmp, "cc.pem"), "{ck}": os.path.join(tmp, "ck.pem")}
+
+            def pins():
+                from nauyaca.security.tofu import TOFUDatabase
+
+                try:
+                    return sorted([str(h["hostname"]), int(h["port"]), str(h["fingerprint"])[-16:]] for h in TOFUDatabase().list_hosts())
+                except Exception as e:  # noqa: BLE001
+                    return [["?", 0, type(e).__name__]]
+
+            if case["prepin"]:
+                from nauyaca.security.tofu import TOFUDatabase
+
+                TOFUDatabase().trust("localhost", peer.port, x509.load_pem_x509_certificate({"A": harness_cert, "B": harness_cert_b}[case["prepin"]]()[0]))
+            if case["variant"] == "synthesised":
+                argv = tls_startup.synth_argv({"path": case["cmd"].split(" "), "params": case["params"]}, peer.port, tmp)
+                in_process = False
+            else:
+                argv = [subst.get(a, a) for a in CLI_DRIVERS[case["cmd"]][case["variant"]][0]]
+                in_process = True
+            steps = []
+            for i, st in enumerate(case["steps"]):
+                peer.set_step_cert(i, st["lo"], st["hi"], st["reset_first"], st["cert"])
+                before = pins()
+                if in_process:
+                    from typer.testing import CliRunner
+
+                    import nauyaca.__main__ as M
+
+                    res = CliRunner().invoke(M.app, argv)
+                    outcome = f"exit={res.exit_code}"
+                else:
+                    outcome = tls_startup.run_cli_subprocess(argv, home, str(core.REPO / "src"), timeout=10.0, env_extra={"SSL_CERT_FILE": both})
+                peer.settle()
+                ents = [e for e in peer.log if e["step"] == i]
+                steps.append({"completed": [e["hs"] for e in ents if e["hs"] in VERS], "req": [e["req"] for e in ents if e["hs"] in VERS],
+                              "attempts": [e["hs"].split(":")[0] for e in ents], "outcome": outcome, "pins_before": before, "pins_after": pins()})
+            return {"argv": [a.replace(str(peer.port), "<port>").replace(tmp, "<tmp>") for a in argv], "steps": steps}
+        finally:
+            os.chdir(cwd)
+            if peer:
+                peer.close()
+            for k, v in saved.items():
+                if v is None:
+                    os.environ.pop(k, None)
+                else:
+                    os.environ[k] = v
+            shutil.rmtree(tmp, ignore_errors=True)
+            try:
+                import structlog
+
+                structlog.configure(wrapper_class=structlog.make_filtering_bound_logger(50))
+            except Exception:  # noqa: BLE001
+                pass
+
+    def _row(self, case):
+        return CLI_DRIVERS.get(case["cmd"], {}).get(case["variant"], (None, None))[1]
+
+    def model(self, case):
+        row = self._row(case)
+        if row is None:
+            return None
+        return f"tlsvers {row} " + " ".join(f"{s['lo']} {s['hi']}" for s in case["steps"])
+
+    def expect(self, case, out):
+        if not out.startswith("ok "):
+            return {"model": out}
+        vs = out[3:].split(",")
+        # every command makes ONE connection per invocation: a reset first connection ends the invocation
+        return {"steps": [{"completed": ([] if (v == "none" or st["reset_first"]) else [v])} for v, st in zip(vs, case["steps"])]}
+
+    def same(self, expected, obs):
+        if "model" in expected:
+            return False
+        return [s["completed"] for s in expected["steps"]] == [s["completed"] for s in obs["steps"]]
+
+    def oracle(self, case, obs):
+        argv = "nauyaca " + " ".join(obs["argv"])
+        start = {None: "an empty pin store", "A": "a pin store holding the server's certificate A", "B": "a pin store holding another certificate (B) for the host"}[case["prepin"]]
+        for i, (st, o) in enumerate(zip(case["steps"], obs["steps"])):
+            hist = " -> ".join(f"{VERS[s['lo']]}..{VERS[s['hi']]}/cert {s['cert']}{' (first connection reset)' if s['reset_first'] else ''}" for s in case["steps"][:i + 1])
+            for v, req in zip(o["completed"], o["req"]):
+                if v in ("ssl3", "tls10", "tls11"):
+                    changed = "" if o["pins_before"] == o["pins_after"] else f"; the pin store changed from {o['pins_before']} to {o['pins_after']}"
+                    return (f"cli-old-tls-{case['cmd'].replace(' ', '-')}",
+                            f"`{argv}` ({start}) completed a {v} handshake with the server in step {i + 1} of the history [{hist}] "
+                            f"(permissive server, security level 0), {'sent ' + str(req) + ' request bytes to it' if req else 'sent no request'}{changed}; command outcome {o['outcome']}")
+            gained = [p for p in o["pins_after"] if p not in o["pins_before"]]
+            if st["hi"] <= 2 and gained and o["attempts"]:
+                return (f"cli-pin-from-old-tls-{case['cmd'].replace(' ', '-')}",
+                        f"`{argv}` ({start}) changed the pin store from {o['pins_before']} to {o['pins_after']} in step {i + 1} of the history [{hist}] although "
+                        f"the server offered nothing above {VERS[st['hi']]} (handshake attempts seen by the server: {o['attempts']})")
+        return None
+
+    def key(self, case, obs):
+        def cls(s):
+            return ("old" if s["hi"] <= 2 else "modern" if s["lo"] >= 3 else "old+modern") + ("/reset-first" if s["reset_first"] else "")
+        conn = sum(len(o["attempts"]) for o in obs["steps"])
+        what = f"{case['cmd']} [{case['variant']}]" if case["variant"] != "synthesised" else f"{case['cmd']} [arguments synthesised from its parameters; {'CONNECTS' if conn else 'opens no connection'}; {obs['steps'][0]['outcome']}]"
+        return f"{what} pins={case['prepin'] or 'none'}: " + " > ".join(cls(s) for s in case["steps"][:2]) + (" > ..." if len(case["steps"]) > 2 else "")
+
+
+FAMILIES = [Versions(), PlaintextModel(), Live(), ClientHistories(), Startup(), CliCommands()]
 
 if __name__ == "__main__":
     if "--write-tls" in sys.argv:
